@@ -1436,6 +1436,19 @@ handle_null_request(int tun_fd, int dns_fd, struct dnsfd *dns_fds, struct query 
 			users[userid].inpacket.fragment = up_frag;
 			users[userid].inpacket.len = 0;
 			users[userid].inpacket.offset = 0;
+		} else if (users[userid].inpacket.offset == 0) {
+			/* seq is same, frag is higher, but nothing of this
+			   packet is stored: the packet with this seqno was
+			   completed already, and this is a later packet of a
+			   client whose seqno has come round (we saw nothing of
+			   the seven in between, and took its first fragment
+			   for a duplicate). Without the beginning there is
+			   nothing to append to. */
+			if (debug >= 1) {
+				fprintf(stderr, "IN   pkt seq# %d, frag %d, dropped fragment of a packet we have no start of\n",
+					up_seq, up_frag);
+			}
+			upstream_ok = 0;
 		} else {
 			/* seq is same, frag is higher; don't care about
 			   missing fragments, TCP checksum will fail */
